@@ -171,6 +171,45 @@ theorem stream_total {α : Type} (env : Env α) (hfs : ∀ i v, env.fromState i 
     (f i : Nat) (s : Bytes) (hf : s.length + 1 ≤ f) : (streamLoop env f i s).2 ≠ .escapes :=
   streamLoop_no_escape env hfs f i s hf
 
+/-- **C36 (a corrupted tail never loses the flows before it).** Take ANY byte string that starts with whole, good
+    records `vs` (the flows `fl`) and continues with ARBITRARY bytes — garbage, a cut record, a record of an unknown
+    version, anything. Reading it yields all of `fl` first, in order; whatever the tail does comes after them. -/
+theorem corrupted_tail_keeps_flows {α : Type} (env : Env α) (vs : List Value) (fl : List α)
+    (hgood : Good env 0 vs fl) (tail : Bytes) :
+    fl <+: (readAll env (encList vs ++ tail)).1 := by
+  cases vs with
+  | nil =>
+    cases fl with
+    | nil => exact List.nil_prefix
+    | cons _ _ => simp [Good] at hgood
+  | cons v vt =>
+    obtain ⟨c, cs, hc, hdig⟩ := enc_head_digit v
+    have hfile : encList (v :: vt) ++ tail = c :: (cs ++ encList vt ++ tail) := by simp [encList, hc]
+    have hlen : (v :: vt).length ≤ (encList (v :: vt) ++ tail).length := by
+      have : ∀ l : List Value, l.length ≤ (encList l).length := by
+        intro l
+        induction l with
+        | nil => simp
+        | cons v t ih => have := enc_length_ge v; simp [encList]; omega
+      have := this (v :: vt)
+      simp only [List.length_append]; omega
+    unfold readAll
+    rw [hfile, sniff_digit c _ hdig]
+    simp only [Bool.false_eq_true, if_false]
+    rw [← hfile]
+    have hf : (encList (v :: vt) ++ tail).length + 1
+        = (v :: vt).length + ((encList (v :: vt) ++ tail).length + 1 - (v :: vt).length) := by omega
+    rw [hf, stream_records_tail env (v :: vt) fl 0 _ tail hgood]
+    exact List.prefix_append _ _
+
+/-- … and the read still ends cleanly or with FlowReadException (combination with `never_other`) -/
+theorem corrupted_tail_ends_in_flow_read_error {α : Type} (env : Env α)
+    (hfs : ∀ i v, env.fromState i v ≠ .error .nonException) (vs : List Value) (fl : List α)
+    (hgood : Good env 0 vs fl) (tail : Bytes) :
+    fl <+: (readAll env (encList vs ++ tail)).1 ∧
+      ((readAll env (encList vs ++ tail)).2 = .clean ∨ (readAll env (encList vs ++ tail)).2 = .flowRead) :=
+  ⟨corrupted_tail_keeps_flows env vs fl hgood tail, never_other env hfs _⟩
+
 -- ------------------------------------------------------------------------------------------------
 -- non-vacuity and sanity (computed by the kernel)
 -- ------------------------------------------------------------------------------------------------
